@@ -192,6 +192,16 @@ def o_find_group(ctx):
     conf.top_up_from_atoms([other])
     added = len(conf.atoms) == n0 + 1
     ctx.claim('top-up-adds-iff-different-residue', Not(same(i1, i2)) if added else same(i1, i2))
+    # the residue-type guard: an atom of ANOTHER residue type is refused only when it sits at the
+    # position (chain, number, insertion code) of a residue this conformation already has
+    foreign = mk_atom('NZ', 'LYS', i2)
+    conf2 = H.conformation('1B', p=p)
+    conf2.add_atom(mk_atom('CG', 'ASP', i1))
+    n1 = len(conf2.atoms)
+    conf2.top_up_from_atoms([foreign])
+    refused = len(conf2.atoms) == n1
+    ctx.claim('other-residue-type-refused-iff-same-position', same(i1, i2) if refused else Not(same(i1, i2)),
+              detail='refused=%r' % refused)
 
 
 def o_resid(ctx):
